@@ -1055,3 +1055,60 @@ def decorator_memo_rule(ctx, rid, class_filter, min_instances=1):
                 r.fail(g.qualname + (".setter" if g.is_setter() else ""), f"stale-memo:{short}", g.file, g.lineno, f"{g.cls.name}.{g.name}", f"the {kind} {g.cls.name}.{g.name} stores self.{short} without clearing the memo of the decorator-memoised methods computed from it (e.g. {f.cls.name}.{f.name}, keyed by its arguments only): compute, assign, read again -> the value of the old state")
             else:
                 r.ok(f"{f.qualname}: inputs immutable or memo cleared by their mutators")
+
+
+def notify_last_rule(ctx, rid, min_instances=4):
+    """Observers are told of a change once the change is complete: in every function that calls `self._Notify(...)`, no
+    statement that can run after the notification stores state through self (directly, through a method of self, or
+    through super()).  An observer that reads the object inside its callback -- the first 'next read' -- otherwise sees
+    the flags / values of the old state."""
+    from .flow import CallGraph, self_stores
+
+    repo = ctx.repo
+    cg = CallGraph(repo)
+    r = ctx.rule(rid, "notification comes last: nothing that runs after self._Notify(...) in the notifying function stores state through self", min_instances=min_instances)
+
+    def stores_state(st, f):
+        for n in ast.walk(st):
+            if isinstance(n, ast.Attribute) and isinstance(n.value, ast.Name) and n.value.id == "self" and isinstance(n.ctx, (ast.Store, ast.Del)):
+                return f"stores self.{n.attr}"
+            if isinstance(n, ast.Call):
+                if (dotted(n.func) or "").split(".")[-1] == "_Notify":
+                    continue
+                for g in cg.resolve_call(f, n):
+                    if g.cls is not None and f.cls is not None and (g.cls in f.cls.mro or f.cls in g.cls.mro):
+                        for h in cg.reachable([g], limit=30):
+                            if h.cls is not None and (h.cls in f.cls.mro or f.cls in h.cls.mro) and any(kind for a, _, kind in self_stores(h)):
+                                return f"calls {g.cls.name}.{g.name}, which stores state"
+        return None
+
+    def has_notify(st):
+        return any(isinstance(n, ast.Call) and (dotted(n.func) or "") == "self._Notify" for n in ast.walk(st))
+
+    def after(body, f):
+        """first state-storing statement that can run after a notification in this block (recursively)"""
+        seen = False
+        for st in body:
+            if seen:
+                why = stores_state(st, f)
+                if why:
+                    return st, why
+            if isinstance(st, (ast.If, ast.For, ast.While, ast.With, ast.Try)):
+                for blk in [getattr(st, "body", []), getattr(st, "orelse", []), getattr(st, "finalbody", [])] + [h.body for h in getattr(st, "handlers", [])]:
+                    res = after(blk, f)
+                    if res:
+                        return res
+            if has_notify(st):
+                seen = True
+        return None
+
+    for f in sorted(repo.all_functions(), key=lambda f: f.qualname):
+        if f.cls is None or f.name == "_Notify" or not has_notify(f.node):
+            continue
+        r.instance(fn=f.qualname)
+        res = after(f.node.body, f)
+        if res:
+            st, why = res
+            r.fail(f.qualname, "state-after-notify", f.file, st.lineno, f"{f.cls.name}.{f.name}", f"`{norm_text(st)[:70]}` runs after the observers were notified and {why}: an observer reading the object in its callback sees the state of before the change")
+        else:
+            r.ok(f"{f.qualname}: the notification is the last state-relevant step")
